@@ -133,16 +133,32 @@ void history(vh::rng& r, hashes& h, const vh::args& a) {
     for (const auto& k : uni.keys) if (k.size() > 8) ok = false;
     if (ok && !uni.keys.empty()) break;
   }
+  // 1 case in 16: a node filled with all 256 children (the 8-bit child counter wraps there), kept near the 255/256 boundary
+  const bool full256 = r.chance(1.0 / 16);
+  if (full256) {
+    uni = vu::universe{};
+    uni.u64 = !bytestring;
+    uni.family = "full256";
+    uni.sh = vu::shape::FIXED;
+    uni.len = 8;
+    uni.alpha.assign(8, {});
+    const bytes base = vm::u64_key(r.next());
+    const auto pos = r.below(8);
+    for (std::size_t i = 0; i < 8; ++i) uni.alpha[i].push_back(static_cast<unsigned char>(base[i]));
+    uni.alpha[pos].clear();
+    for (unsigned v = 0; v < 256; ++v) { bytes k = base; k[pos] = static_cast<char>(v); uni.keys.push_back(k); uni.alpha[pos].push_back(static_cast<unsigned char>(v)); }
+  }
   vm::model_map model;  // used only to steer the workload (present/absent picks, bounds, D4 admissibility)
   Db db;
-  const u64 nops = a.num("ops", 250) * (uni.keys.size() > 300 ? 3 : 1);
+  const u64 nops = full256 ? 1100 : a.num("ops", 250) * (uni.keys.size() > 300 ? 3 : 1);
   u64 vcount = 0;
   for (u64 op = 0; op < nops; ++op) {
     const auto x = r.below(100);
     const int phase = static_cast<int>((op * 3) / nops);  // fill, churn, drain
     const int w_ins = phase == 0 ? 60 : (phase == 1 ? 36 : 12), w_rem = phase == 0 ? 8 : (phase == 1 ? 36 : 58);
     if (x < static_cast<u64>(w_ins)) {
-      const bytes k = r.pick(uni.keys);
+      bytes k = r.pick(uni.keys);
+      if (full256 && phase < 2 && model.count(k) != 0) { for (const auto& c : uni.keys) if (model.count(c) == 0) { k = c; break; } }
       if (bytestring && !vu::admissible_insert(model, k)) continue;
       bytes v(r.below(12), '\0');
       const auto id = ++vcount;
@@ -170,7 +186,11 @@ void history(vh::rng& r, hashes& h, const vh::args& a) {
     } else {
       const int api = static_cast<int>(r.below(3));
       const bool fwd = r.chance(0.5);
-      const bytes b1 = bound_near(r, uni, model), b2 = bound_near(r, uni, model);
+      bytes b1 = bound_near(r, uni, model), b2 = bound_near(r, uni, model);
+      if (bytestring && r.chance(0.25)) {  // bounds that are proper prefixes / extensions of the keys
+        if (r.chance(0.6) && !b1.empty()) b1.resize(r.below(b1.size())); else b1 += static_cast<char>(r.below(256));
+        if (r.chance(0.5) && !b2.empty()) b2.resize(r.below(b2.size()));
+      }
       const std::size_t halt = r.chance(0.6) ? 1 + r.below(8) : static_cast<std::size_t>(-1);
       fold_scan(db, h, api, fwd, b1, b2, halt);
       if constexpr (dbinfo<Db>::cls == 2) {
@@ -190,7 +210,7 @@ void history(vh::rng& r, hashes& h, const vh::args& a) {
       }
     }
     fold_stats(db, h);
-    if (r.chance(0.002)) { db.clear(); model.clear(); h.trace = vh::hash_combine(h.trace, 0x600); }
+    if (r.chance(full256 && model.size() == uni.keys.size() ? 0.03 : 0.002)) { db.clear(); model.clear(); h.trace = vh::hash_combine(h.trace, 0x600); }
   }
   // final content
   fold_scan(db, h, 0, true, bytes(), bytes(), static_cast<std::size_t>(-1));
